@@ -221,7 +221,7 @@ def gen_member(g, host_env, idx, feats):
     body = [['assign', var(nm), B.expr_of(g2, ienv, t, 2)]]
     if g.chance(50):
         body.append(['if', [[B.log_expr(g2, ienv, 1), [['assign', var(nm), B.expr_of(g2, ienv, t, 1)]]]], None])
-    if g.chance(30):
+    if g.chance(50):
         a = gen_assoc(g2, ienv, feats)
         if a is not None:
             feats.add('member:assoc')
@@ -314,13 +314,40 @@ def _tin_path(env, obj):
 
 
 # ------------------------------------------------------------------ the project
+DEFAULT_FLAGS = {'print': True, 'casts': True, 'dtsym': True, 'members': True, 'frontend_state': True}
+
+
 @st.composite
-def projects(draw, thorough=False):
+def projects(draw, thorough=False, kind=None, flags=None):
+    """
+    ``kind``  : force the kind of the target (file|module|routine|free|member); None = drawn
+    ``flags`` : known-finding triggers; a flag that is False is never generated and every draw that wanted
+                it is listed in case['avoided']:
+        print : PRINT statements
+        casts : real(<int>, 8) conversions
+        dtsym : derived-type names in the ONLY list of an import that the frontend / enrich() resolves
+                (the import then lists the other names and a second, unqualified USE of the module provides the types)
+        members : internal (member) procedures
+        frontend_state : judge the units exactly as the frontend (+ enrich) leaves them; off = case['rescope_after_parse']
+                asks for unit.rescope_symbols() on every top-level unit first (AttachScopes normal form: intrinsic
+                names attached to the closest scope, symbols that enrich() left unattached resolved)
+    """
+    flags = dict(DEFAULT_FLAGS, **(flags or {}))
     prof = dict(BODY_PROFILE)
     if thorough:
         prof.update(max_stmts=5, max_depth=3, expr_depth=3)
     g = B.G(draw, prof)
     feats = set()
+    avoided = []
+    wants_print = g.chance(60)
+    if wants_print and not flags['print']:
+        avoided.append('print')
+    prof['print'] = wants_print and flags['print']
+    wants_casts = g.chance(70)
+    if wants_casts and not flags['casts']:
+        avoided.append('casts')
+    prof['casts'] = wants_casts and flags['casts']
+    mode = g.pick(['plain', 'defs', 'defs', 'enrich', 'enrich'])
     tbp = g.chance(30)
     # ---------------- tmod: types, parameters, module variables, helpers
     t_funcs_r, t_funcs, t_subs_r, t_subs = [], [], [], []
@@ -360,6 +387,11 @@ def projects(draw, thorough=False):
         only += [[s['name'], None] for s in t_subs] + [[f['name'], None] for f in t_funcs]
         uses = [{'module': 'tmod', 'only': only}]
         feats.add('import:only-renamed' if rename else 'import:only')
+        if mode != 'plain':
+            feats.add('import:derived-type-resolved')
+            if not flags['dtsym']:
+                avoided.append('dtsym')
+                uses = [{'module': 'tmod', 'only': only[2:]}, {'module': 'tmod', 'only': None}]
     menv = B.Env()
     menv.vars = {
         'kp': {'type': 'int', 'dims': None, 'ro': True}, 'mp': {'type': 'int', 'dims': None, 'ro': True},
@@ -400,6 +432,11 @@ def projects(draw, thorough=False):
     ntypes = ['tout', 'tin'] + (['tloc'] if own_type else [])
     dtypes = [g.pick(ntypes) for _ in range(g.i(1, 2))]
     nmem = g.pick([0, 1, 1, 2])
+    if kind == 'member':
+        nmem = max(nmem, 1)
+    if nmem and not flags['members']:
+        avoided.append('members')
+        nmem = 0
     if nmem:
         feats.add(f'members:{nmem}')
     kern, ksig = gen_kernel(g, 'kernel', env3, feats, dtypes, nmem, calls_tbp=tbp)
@@ -412,7 +449,7 @@ def projects(draw, thorough=False):
     kunits = [['module', kmod]]
 
     # ---------------- a free subroutine importing from kmod (same file or its own file)
-    free = g.chance(60)
+    free = g.chance(60) or kind == 'free'
     free_own_file = free and g.chance(40)
     if free:
         denv = B.Env()
@@ -440,6 +477,11 @@ def projects(draw, thorough=False):
                 used.add(c[0])
                 call_args.append(var(c[0]))
         dbody = list(dpro) + B.gen_body(g, denv, 0, 2)
+        if g.chance(60):
+            a = gen_assoc(g, denv, feats)
+            if a is not None:
+                dbody.append(a)
+                feats.add('free:assoc')
         if ok:
             call_args.append(var('da'))
             tuses = {u['module'] for u in duses}
@@ -454,6 +496,23 @@ def projects(draw, thorough=False):
                 call_args.append(var('dob'))
             dbody.append(['call', 'kernel', call_args, {}])
             feats.add('free:calls-kernel')
+        # derived-type names in ONLY lists that get resolved: kmod's types when drv shares the file with kmod
+        # (the frontend resolves intra-file imports in every mode) or the project is enriched
+        typenames = {'tin', 'tout', 'tloc'}
+        final_uses = []
+        for u_ in duses:
+            has_type = any(n in typenames for n, _ in u_['only'])
+            resolved = mode != 'plain' or (u_['module'] == 'kmod' and not free_own_file)
+            if has_type and resolved:
+                feats.add('import:derived-type-resolved')
+                if not flags['dtsym']:
+                    if 'dtsym' not in avoided:
+                        avoided.append('dtsym')
+                    final_uses.append({'module': u_['module'], 'only': [x for x in u_['only'] if x[0] not in typenames]})
+                    final_uses.append({'module': u_['module'], 'only': None})
+                    continue
+            final_uses.append(u_)
+        duses = final_uses
         drv = routine('drv', dargs, ddecls, dbody, uses=duses)
         if free_own_file:
             feats.add('free:own-file')
@@ -474,12 +533,17 @@ def projects(draw, thorough=False):
         'member': [['member', 1, 'kmod', 'kernel', m['name']] for m in kern['contains']],
         'free': [['free', fi, 'drv']] if free else [],
     }
-    w = g.i(0, 99)
-    kind = 'file' if w < 25 else ('module' if w < 50 else ('routine' if w < 72 else ('free' if w < 88 else 'member')))
-    if not by_kind[kind]:
-        kind = 'module' if w % 2 else 'file'
+    if kind is None:
+        w = g.i(0, 99)
+        kind = 'file' if w < 25 else ('module' if w < 50 else ('routine' if w < 72 else ('free' if w < 88 else 'member')))
+        if not by_kind[kind]:
+            kind = 'module' if w % 2 else 'file'
     target = g.pick(by_kind[kind])
-    mode = g.pick(['plain', 'defs', 'defs', 'enrich', 'enrich'])
     layout = B.gen_layout(g, 'full')
     layout['dcolon'] = True     # fparser rejects 'type(t) &\n ) x' style declarations without '::' split by a continuation
-    return {'files': files, 'layout': layout, 'mode': mode, 'target': target, 'feats': sorted(feats)}
+    case = {'files': files, 'layout': layout, 'mode': mode, 'target': target, 'feats': sorted(feats),
+            'avoided': avoided}
+    if not flags['frontend_state']:
+        avoided.append('frontend_state')
+        case['rescope_after_parse'] = True
+    return case
